@@ -24,8 +24,9 @@ import Mathlib.Algebra.BigOperators.Intervals
   the selected mode (`disjoint_gen`); the selection probability equals the fraction to the resolution of
   the uniform source (`selection_probability`).
 * **coherent**: the ensemble mean equals `A + B` at every coherence for pure states, for any phase set
-  whose cosines and sines sum to zero (`coherent_instance`, `coherent_mean`); the covariance at zero
-  coherence is decided on the implementation only (cubature × phase quadrature). -/
+  whose cosines and sines sum to zero (`coherent_instance`, `coherent_mean`); at zero coherence the
+  ensemble covariance equals the predicted covariance (`coherent_cov_zero`, from C01's fourth moments of the
+  coupling mode and a polynomial identity for pure states). -/
 set_option linter.unusedSectionVars false
 set_option linter.unusedVariables false
 set_option linter.unusedSimpArgs false
@@ -481,6 +482,68 @@ theorem coherent_mean (G : GaussE 4 K) (c : K) (a b : Spinor K) (N : Nat) (hN : 
     ← Finset.sum_mul, ← Finset.sum_mul, hcs, hsn]
   simp
   field_simp
+
+/-- coefficients of one coherent instance in the Stokes parameters of the coupling amplitudes -/
+def cohCoef (a b : Spinor K) (k : Fin 4) : Fin 4 → K := fun i => match i with
+  | 0 => (1/2) * (Spinor.computeStokes a k + Spinor.computeStokes b k)
+  | 1 => (1/2) * (Spinor.computeStokes a k - Spinor.computeStokes b k)
+  | 2 => (crossM a b k).re
+  | 3 => -(crossM a b k).im
+
+theorem coherent_instance_sum (a b : Spinor K) (e : Spinor K) (k : Fin 4) :
+    Spinor.computeStokes (Spinor.add (Spinor.smulC e.x a) (Spinor.smulC e.y b)) k
+      = ∑ i, cohCoef a b k i * Spinor.computeStokes e i := by
+  have := coherent_instance a b e.x e.y k
+  rw [show (⟨e.x, e.y⟩ : Spinor K) = e from rfl] at this
+  rw [this, Fin.sum_univ_four]
+  simp only [cohCoef]; ring
+
+/-- second moments of the coupling Stokes parameters at zero coherence (`S = (2,0,0,0)`): C01 gives
+`E[s_i s_j] = S_i S_j + outer(S,S)_{ij}` -/
+theorem coupling_second (G : GaussE 4 K) (P : Jones K) (hP : IsRoot P (v4 2 0 0 0)) (i j : Fin 4) :
+    G.E (fun g => Spinor.computeStokes (Sim.getField P g) i * Spinor.computeStokes (Sim.getField P g) j)
+      = (v4 (2:K) 0 0 0) i * (v4 (2:K) 0 0 0) j + Sim.modeCov (v4 (2:K) 0 0 0) i j := by
+  have := cov_stokes G P _ hP i j
+  linear_combination this
+
+/-- ensemble second moment of one coherent instance at zero coherence -/
+theorem coherent_second (G : GaussE 4 K) (P : Jones K) (hP : IsRoot P (v4 2 0 0 0)) (a b : Spinor K) (k l : Fin 4) :
+    G.E (fun g => Spinor.computeStokes (Spinor.add (Spinor.smulC (Sim.getField P g).x a) (Spinor.smulC (Sim.getField P g).y b)) k
+                * Spinor.computeStokes (Spinor.add (Spinor.smulC (Sim.getField P g).x a) (Spinor.smulC (Sim.getField P g).y b)) l)
+      = ∑ i, ∑ j, cohCoef a b k i * cohCoef a b l j * ((v4 (2:K) 0 0 0) i * (v4 (2:K) 0 0 0) j + Sim.modeCov (v4 (2:K) 0 0 0) i j) := by
+  have e : (fun g => Spinor.computeStokes (Spinor.add (Spinor.smulC (Sim.getField P g).x a) (Spinor.smulC (Sim.getField P g).y b)) k
+                * Spinor.computeStokes (Spinor.add (Spinor.smulC (Sim.getField P g).x a) (Spinor.smulC (Sim.getField P g).y b)) l)
+      = fun g => ∑ i, ∑ j, (cohCoef a b k i * cohCoef a b l j) *
+          (Spinor.computeStokes (Sim.getField P g) i * Spinor.computeStokes (Sim.getField P g) j) := by
+    funext g
+    rw [coherent_instance_sum, coherent_instance_sum, Finset.sum_mul_sum]
+    apply Finset.sum_congr rfl; intro i _; apply Finset.sum_congr rfl; intro j _; ring
+  rw [e, G.sum]
+  apply Finset.sum_congr rfl; intro i _
+  rw [G.sum]
+  apply Finset.sum_congr rfl; intro j _
+  rw [G.smul, coupling_second G P hP]
+
+set_option maxHeartbeats 4000000 in
+/-- the zero-coherence covariance identity for pure states: what the Gaussian fourth moments give is
+the predicted `coherent::get_covariance` (Eq. 42 without modulation) -/
+theorem coherent_cov_identity (a b : Spinor K) (k l : Fin 4) :
+    (∑ i, ∑ j, cohCoef a b k i * cohCoef a b l j * ((v4 (2:K) 0 0 0) i * (v4 (2:K) 0 0 0) j + Sim.modeCov (v4 (2:K) 0 0 0) i j))
+        - (Spinor.computeStokes a k + Spinor.computeStokes b k) * (Spinor.computeStokes a l + Spinor.computeStokes b l)
+      = Sim.coherentCov (modeTheory (Spinor.computeStokes a) 0) (modeTheory (Spinor.computeStokes b) 0) 1 k l := by
+  simp only [Fin.sum_univ_four, Sim.coherentCov, Sim.sampleCovM, Sim.sampleCovEntry, Sim.nSqScalar, modeTheory, Sim.modulatedCov,
+    Sim.modeCov, List.range_zero, List.foldl_nil, ofNat_eq, one_eq, two_eq]
+  fin_cases k <;> fin_cases l <;>
+    simp [cohCoef, crossM, v4, Minkowski.outer, Minkowski.inner, Spinor.computeStokes, epsic, Cx.norm_def] <;> ring
+
+/-- **coherent combination at zero coherence: ensemble covariance = predicted covariance** (one instance,
+pure states `a`, `b`, any `GaussE 4`, coupling polarizer a root of `(2,0,0,0)`) -/
+theorem coherent_cov_zero (G : GaussE 4 K) (P : Jones K) (hP : IsRoot P (v4 2 0 0 0)) (a b : Spinor K) (k l : Fin 4) :
+    G.E (fun g => Spinor.computeStokes (Spinor.add (Spinor.smulC (Sim.getField P g).x a) (Spinor.smulC (Sim.getField P g).y b)) k
+                * Spinor.computeStokes (Spinor.add (Spinor.smulC (Sim.getField P g).x a) (Spinor.smulC (Sim.getField P g).y b)) l)
+        - (Spinor.computeStokes a k + Spinor.computeStokes b k) * (Spinor.computeStokes a l + Spinor.computeStokes b l)
+      = Sim.coherentCov (modeTheory (Spinor.computeStokes a) 0) (modeTheory (Spinor.computeStokes b) 0) 1 k l := by
+  rw [coherent_second G P hP, coherent_cov_identity]
 
 theorem current_repairs : Sim.currentCompositeCountsRepaired = true ∧ Sim.currentCompositeZeroGuard = true := ⟨rfl, rfl⟩
 /-- before the repair the generator's second count was `unsigned (n - fraction)`: for `n = 8`, fraction ¼ it is 7, not 6 -/
